@@ -184,6 +184,24 @@ func runC09(c *core.Ctx) {
 			q = []int{4, 8, 64}[rng.Intn(3)]
 			per = 10 + rng.Intn(20)
 		}
+		// sender-fault trials: one Writev of the background sender fails (timeout or not) in the middle of streamed messages;
+		// whatever the library does then (it closes the channel), the order in which bytes are HANDED to the transport -
+		// refused batch included - still keeps every message in one piece
+		senderFault := idx%8 == 2
+		if senderFault {
+			pipe = "none"
+			carrier = []string{"io.Reader", "io.MultiReader", "*bytes.Reader"}[rng.Intn(3)]
+			carrier2 = []string{carrier, "[]byte"}[rng.Intn(2)]
+			sizeClass = 2
+			sizes = []int{2047, 2048, 2049, 3000, 5000}
+			mode = []mon.Mode{mon.Blocking, mon.NonBlock}[rng.Intn(2)]
+			q = []int{4, 8, 64}[rng.Intn(3)]
+			if mode == mon.NonBlock {
+				q = 32768
+			}
+			per = 10 + rng.Intn(20)
+			closeInFlight = false
+		}
 		procs := []int{1, 1, 2, 4, 8, 16}[rng.Intn(6)]
 		runtime.GOMAXPROCS(procs)
 
@@ -216,6 +234,14 @@ func runC09(c *core.Ctx) {
 			c.Count("trials_on_transport_wrapper", 1)
 		}
 		rig := mon.NewRig(ro)
+		if senderFault {
+			ferr := error(tmoErr{true})
+			if rng.Intn(2) == 0 {
+				ferr = tmoErr{false}
+			}
+			rig.T.AddFault(mon.Fault{Kind: mon.OpWritev, K: 2 + rng.Intn(5), Err: ferr})
+			c.Count("trials_sender_fault", 1)
+		}
 		text := pipe == "delimiter+text"
 		var wg sync.WaitGroup
 		for w := 0; w < W; w++ {
@@ -288,11 +314,29 @@ func runC09(c *core.Ctx) {
 		if closeInFlight {
 			cg.Wait()
 			rig.Ex.WaitOutstanding(0, 10*time.Second)
+		} else if senderFault {
+			if !rig.Ex.WaitOutstanding(1, 10*time.Second) {
+				rig.Ex.WaitOutstanding(0, time.Second)
+			}
 		} else {
 			rig.Ex.WaitOutstanding(1, 10*time.Second)
 		}
 		ops, wire := rig.T.Snapshot()
-		c09Judge(c, id, pipe, carrier+mixSuffix(carrier, carrier2), mode, W, sizeClass, useCtx, ops, wire, closeInFlight)
+		if senderFault {
+			// judge the order of hand-over: every write call's data, the refused one included
+			var ops2 []mon.Op
+			var wire2 []byte
+			for _, o := range ops {
+				if o.Kind != mon.OpWrite && o.Kind != mon.OpWritev {
+					continue
+				}
+				o.Start, o.Rejected = len(wire2), false
+				wire2 = append(wire2, o.Data...)
+				ops2 = append(ops2, o)
+			}
+			ops, wire = ops2, wire2
+		}
+		c09Judge(c, id, pipe, carrier+mixSuffix(carrier, carrier2), mode, W, sizeClass, useCtx, ops, wire, closeInFlight || senderFault)
 		rig.Dispose()
 	}
 	runtime.GOMAXPROCS(runtime.NumCPU())
